@@ -143,6 +143,26 @@ Proof.
     + constructor; [now apply good_known|apply (r_good _ _ HR)].
 Qed.
 
+(* an environment read pushes a value that is no constant of the path: None on the concrete side *)
+Lemma sim_env o t b c e br ie :
+  classify o = KEnv t b -> Rst (o_st c) e -> byte_at bytes (e_pc e) = Some b ->
+  depth_ok (o_st c) = true -> fits cfg (Node t [] []) = true ->
+  cont c e br ie (env_shape t) (e_pc e + 1).
+Proof.
+  intros Hc HR Hb Hd Hf. pose proof (table_fact o) as T. unfold kind_ok in T. rewrite Hc in T.
+  destruct T as (_ & _ & _ & Hden & Hk1 & Hk2 & Hstep).
+  unfold depth_ok in Hd. apply Nat.ltb_lt in Hd.
+  destruct (run_env constant_fold cfg ie t c Hf Hd) as (c' & Hrun & Hst & Hkill).
+  exists c', (with_pc_stack e (e_pc e + 1) (None :: e_stack e)).
+  split; [exact Hrun|]. split; [exact Hkill|]. split.
+  - rewrite (Hstep _ _ _ Hb). cbn [length]. rewrite <- (r_stack _ _ HR), map_length.
+    destruct (1024 <? N.of_nat (S (length (stack (o_st c))))) eqn:E; [apply N.ltb_lt in E; lia|reflexivity].
+  - split; [|reflexivity]. rewrite Hst. apply Rst_stack; [exact HR| | |].
+    + cbn [map]. rewrite Hden. now rewrite (r_stack _ _ HR).
+    + cbn [length]. lia.
+    + constructor; [|apply (r_good _ _ HR)]. now apply good_node.
+Qed.
+
 Lemma sim_jumpdest c e br ie :
   Rst (o_st c) e -> byte_at bytes (e_pc e) = Some 91 -> cont c e br ie [] (e_pc e + 1).
 Proof.
@@ -455,7 +475,7 @@ Inductive outcome_ok (c : octx) (ip : N) (e : estate) (jt : list (N * N)) : xres
     estep bytes false e = EHalt e' -> Rst (o_st c') e' ->
     outcome_ok c ip e jt (c', None, None, CNone, jt) false (ip + 1)
 | oo_jump c' t e1 e2 :
-    o_kill c' = o_kill c -> byte_at bytes (e_pc e) <> Some 87 -> estep bytes false e = ENext e1 ->
+    o_kill c' = o_kill c -> byte_at bytes (e_pc e) = Some 86 -> estep bytes false e = ENext e1 ->
     byte_at bytes (e_pc e1) <> Some 87 -> estep bytes false e1 = ENext e2 ->
     Rst (o_st c') e2 -> Rpc bytes code (t + 1) (e_pc e2) ->
     outcome_ok c ip e jt (c', None, None, CJump t, jt) false (t + 1)
@@ -486,7 +506,7 @@ Lemma jumpdest_facts t : nth_error code (N.to_nat t) = Some (IOp control_JumpDes
 Proof.
   intros Hn. destruct (jumpdest_entry_is_boundary _ _ _ Hbytes Hlen Htry Hn) as [H1 H2].
   assert (Hb : bdry bytes code t).
-  { unfold bdry. eapply (aligned_at _ _ Hal); [exact Hn|discriminate|discriminate]. }
+  { unfold bdry. split; [eapply (aligned_at _ _ Hal); [exact Hn|discriminate|discriminate]|now right]. }
   split; [apply valid_dest_iff; now split|]. split; [exact Hb|]. split; [now apply byte_at_nth|].
   pose proof (bdry_inv _ _ _ _ Hb Hn) as Hat. inversion Hat; subst; assumption.
 Qed.
@@ -536,7 +556,7 @@ Proof.
   set (e2 := with_pc_stack e1 (t + 1) (e_stack e1)).
   apply (oo_jump _ _ _ _ _ t e1 e2).
   - reflexivity.
-  - rewrite Hpc, Hb. discriminate.
+  - now rewrite Hpc.
   - rewrite <- Hpc in Hb. rewrite (estep_jump _ _ _ Hb), (estack1 _ _ _ _ HR Hs), Hden, Hvd. reflexivity.
   - cbn [e1 with_pc_stack e_pc]. rewrite Hbyte. discriminate.
   - apply estep_jumpdest. exact Hbyte.
@@ -641,7 +661,7 @@ Proof.
       pose proof (decode_op _ _ Hb256 Hp Hdec) as ->.
       cbn [instr_guard] in Hg. rewrite is_jumpi_classify. unfold next_ip.
       pose proof (table_fact o) as T. unfold kind_ok in T. unfold op_guard in Hg.
-      destruct (classify o) as [t b f|t b f| | | | | | | | | | | | |t b| | ] eqn:Hc.
+      destruct (classify o) as [t b f|t b f| | | | | | | | | | | | |t b| |t b| ] eqn:Hc.
       * destruct T as (Hsem & Hbyte & _ & _ & _ & _ & Hne). rewrite Hbyte in *.
         destruct (stack (o_st c)) as [|x [|y s]] eqn:Hs; try discriminate.
         rewrite (exec_op_plain _ _ _ _ _ _ Hsem). eapply cont_outcome; eauto.
@@ -702,6 +722,9 @@ Proof.
         assert (o = environment_SelfDestruct) as -> by (destruct o; try discriminate Hc; reflexivity).
         destruct (stack (o_st c)) as [|x s] eqn:Hs; try discriminate.
         apply sim_selfdestruct; eauto.
+      * destruct T as (Hsem & Hbyte & Hne & _). rewrite Hbyte in *. apply andb_true_iff in Hg as [Hg1 Hg2].
+        rewrite (exec_op_plain _ _ _ _ _ _ Hsem). eapply cont_outcome; eauto.
+        eapply sim_env; eauto.
       * discriminate.
     + exfalso. eapply Hnpush. reflexivity.
     + (* IDup *)
@@ -719,19 +742,19 @@ Proof.
       eapply cont_outcome; eauto; [lia|]. rewrite swapn_sem_shape. apply (sim_swap c e false _ n); auto.
     + discriminate.
     + congruence.
-    + (* INVALID (0xfe) *)
-      cbn [instr_guard is_jumpi next_ip] in *. apply N.eqb_eq in Hg. subst b'.
+    + (* INVALID (0xfe) and the unassigned bytes *)
+      cbn [instr_guard is_jumpi next_ip] in *.
       destruct (plain_ok b Hb256 Hp) as (i' & Hi' & He & _). rewrite Hdec in Hi'. injection Hi' as <-.
-      cbn [encode] in He. injection He as <-.
-      change (exec_instr constant_fold cfg code vis jt (e_pc e) (IInvalid 254) c)
+      cbn [encode] in He. injection He as ->.
+      change (exec_instr constant_fold cfg code vis jt (e_pc e) (IInvalid b) c)
         with (fst (run_mops constant_fold cfg (mk_ienv (e_pc e) (N.of_nat (length code)) 0 0) invalid_sem c),
               snd (run_mops constant_fold cfg (mk_ienv (e_pc e) (N.of_nat (length code)) 0 0) invalid_sem c), @None exec_err, CNone, jt).
       assert (Hsem : invalid_sem = [MKill]) by reflexivity. rewrite Hsem.
       destruct (run_kill constant_fold cfg (mk_ienv (e_pc e) (N.of_nat (length code)) 0 0) c) as (c' & Hrun & Hst & Hk).
       rewrite Hrun. cbn [fst snd]. apply (oo_halt _ _ _ _ c' e); auto.
+      * rewrite Hb. intros [= ->]. vm_compute in Hg. discriminate Hg.
       * rewrite Hb. discriminate.
-      * rewrite Hb. discriminate.
-      * now apply estep_invalid.
+      * now apply (estep_halts _ _ _ b).
       * now rewrite Hst.
   - (* PUSHn with its n bytes of data *)
     pose proof (byte_lt _ Hbytes _ _ Hnb) as Hb256. pose proof (byte_at_nth _ _ Hnb) as Hb.
@@ -751,7 +774,9 @@ Proof.
     + rewrite Hb. intros [= E]. lia.
     + rewrite Hnpc. constructor; [lia| |exact Hbd1]. intros j Hj. apply Hnops. lia.
   - (* a PUSH truncated by the end of the code is not in the fragment *)
-    cbn [instr_guard] in Hg. apply N.eqb_eq in Hg. subst b. vm_compute in Hp. discriminate Hp.
+    cbn [instr_guard] in Hg. destruct (DisasmProofs.push_ok b (byte_lt _ Hbytes _ _ Hnb) Hp) as (_ & Hrange & _).
+    unfold PUSH_OPCODE_BASE_VALUE, PUSH_OPCODE_MAX_BYTES in Hrange.
+    rewrite evm_halts_not_push in Hg by lia. discriminate Hg.
 Qed.
 
 End StepSim.
